@@ -86,13 +86,19 @@ func (valSet *ValidatorSet) incrementAccumOnce() {
 
 func (valSet *ValidatorSet) Copy() *ValidatorSet {
 	validators := make([]*Validator, len(valSet.Validators))
+	var proposer *Validator
 	for i, val := range valSet.Validators {
 		// NOTE: must copy, since IncrementAccum updates in place.
 		validators[i] = val.Copy()
+		// The cached proposer of the copy must be the copy's own validator:
+		// the original's is mutated by IncrementAccum on the original.
+		if valSet.proposer != nil && bytes.Equal(val.Address, valSet.proposer.Address) {
+			proposer = validators[i]
+		}
 	}
 	return &ValidatorSet{
 		Validators:       validators,
-		proposer:         valSet.proposer,
+		proposer:         proposer,
 		totalVotingPower: valSet.totalVotingPower,
 	}
 }
